@@ -38,6 +38,8 @@ def t_struct(chk, ix):
     rules_parser.check_regex_ambiguity(chk, ix)
     # a second rule with the same (or no) title is a legal document: it must be built like the first (shared with C04)
     rules_parser.check_model_adders(chk, ix)
+    # text that only begins like a keyword is not a step: it must reach the error discipline, not be accepted (shared with C04)
+    rules_parser.check_parse_step_concrete(chk, ix)
 
 
 def run(chk, ix, tier):
